@@ -65,6 +65,11 @@ def check(prop, tier, only):
         "released stack / iteration / static memory: only the new-memory pattern and the integrity of live neighbours are "
         "demanded (the property speaks of memory released to a pool)",
     ]
+    # overflows are reported to the buffer-overflow handler that is installed: concurrent registrations must not lose a handler
+    # (scheduler harness of C13 over src/debugging.cpp compiled with the atomic shim: all schedules of 2-3 registering threads)
+    j = J("h_tsafe_ll", "dbg", "--ll", name="handler-registries-threads[dbg]")
+    j["only_tags"] = ["handler-registration-lost/buffer_overflow"]
+    jobs.append(j)
     return checks.run_enum_check(prop, tier, jobs, level="exploration", only=only, note=note, assumptions=assumptions)
 
 
